@@ -785,7 +785,7 @@ End GenADUP2.
 Section GenAPG.
 Variables (proxf gradg : Rvec -> Rvec) (gamma : R) (alpha : nat -> R) (junk : string -> Rvec).
 Definition apg_I (k : nat) : interp :=
-  mk_I [("gamma", gamma); ("alpha", alpha k)] [("f.proximal(gamma)", proxf); ("g.gradient", gradg)] [] [] junk.
+  mk_I [("gamma", gamma); ("alpha'", alpha k)] [("f.proximal(gamma)", proxf); ("g.gradient", gradg)] [] [] junk.
 Definition env_apg : list (string * nat) := [("x", 0%nat); ("caller.x", 0%nat); ("tmp", 1%nat); ("y", 2%nat)].
 Definition apg_full := ((Rvec * Rvec) * Rvec)%type.
 Definition apg_full_step (k : nat) (f : apg_full) : apg_full :=
@@ -823,3 +823,47 @@ Proof.
     + cbn [h_log app]. apply tracek_length.
 Qed.
 End GenAPG.
+
+(* =========================== accelerated pdhg (gamma_primal or gamma_dual given) ===========================
+   The scalar recursion (theta = 1/sqrt(1 + 2 gamma tau); tau *= theta; sigma /= theta) is a parameter:
+   iteration k uses tau k, sigma k (values at the loop head) in the two proximals and the NEW theta
+   (named theta' by the translator: updated once before its use) in the relaxation. *)
+Section GenPDHGacc.
+Variables (L Ladj : Rvec -> Rvec) (proxp proxd : nat -> Rvec -> Rvec) (tau sigma theta : nat -> R) (m : nat)
+          (junk : string -> Rvec).
+Definition pdhg_acc_I (k : nat) : interp :=
+  mk_I [("tau", tau k); ("sigma", sigma k); ("theta'", theta k)]
+       [("L", L); ("f.proximal(tau)", proxp k); ("g.convex_conj.proximal(sigma)", proxd k)]
+       [("L.derivative.adjoint", fun _ => Ladj)] [("L.range", vzero m)] junk.
+Definition pdhg_acc_step (k : nat) : @pdhg_st R -> @pdhg_st R :=
+  pdhg_step L Ladj (proxp k) (proxd k) (tau k) (sigma k) (theta k).
+Definition pdhg_acc_full_step (k : nat) : pdhg_full -> pdhg_full :=
+  pdhg_full_step L Ladj (proxp k) (proxd k) (tau k) (sigma k) (theta k).
+Lemma gen_pdhg_acc_same_programs :
+  pdhg_accel_dual_body = pdhg_accel_primal_body /\ pdhg_accel_dual_pre = pdhg_pre /\ pdhg_accel_primal_pre = pdhg_pre.
+Proof. repeat split. Qed.
+Lemma gen_pdhg_acc_pre x log :
+  option_map canon (exec (pdhg_acc_I 0) pdhg_accel_primal_pre (mk_hst [("x", 0%nat); ("caller.x", 0%nat)] [x] log))
+  = Some (mk_hst env_pdhg_none (pdhg_enc (pdhg_init m x None None, pdhg_junk junk)) log).
+Proof. symexec. Qed.
+Lemma gen_pdhg_acc_body k f log :
+  body_step (pdhg_acc_I k) pdhg_accel_primal_body (mk_hst env_pdhg_none (pdhg_enc f) log)
+  = Some (mk_hst env_pdhg_none (pdhg_enc (pdhg_acc_full_step k f)) (log ++ [pd_x (fst (pdhg_acc_full_step k f))])).
+Proof. destruct f as [[x xr y] [[xo dt] pt]]. symexec. Qed.
+Lemma pdhg_acc_full_trace n k0 f :
+  tracek (fun f : pdhg_full => pd_x (fst f)) n k0 pdhg_acc_full_step f = tracek pd_x n k0 pdhg_acc_step (fst f).
+Proof. revert k0 f; induction n as [|n IH]; intros k0 f; cbn [tracek]; [reflexivity | now rewrite IH]. Qed.
+Lemma gen_pdhg_acc_run n x :
+  exists s,
+    obind (option_map canon (exec (pdhg_acc_I 0) pdhg_accel_primal_pre (mk_hst [("x", 0%nat); ("caller.x", 0%nat)] [x] [])))
+          (iterk_opt n 0 (fun k => body_step (pdhg_acc_I k) pdhg_accel_primal_body)) = Some s
+    /\ h_log s = tracek pd_x n 0 pdhg_acc_step (pdhg_init m x None None)
+    /\ List.length (h_log s) = n.
+Proof.
+  eexists. split.
+  - rewrite gen_pdhg_acc_pre. cbn [obind].
+    rewrite (sim_iterk env_pdhg_none pdhg_enc (fun f => [pd_x (fst f)]) _ _ gen_pdhg_acc_body), traceLk_single.
+    reflexivity.
+  - cbn [h_log app]. rewrite pdhg_acc_full_trace. split; [reflexivity | apply tracek_length].
+Qed.
+End GenPDHGacc.
